@@ -273,6 +273,34 @@ static Verdict run_c10(const Case &c)
       v.classes.push_back("factory_not_copyable");
     wapi::factory_free(f);
   }
+  // one factory used for two IVs in turn: an object of a kind, then loadiv() with another IV, then another object of
+  // the SAME kind - it must be the stream for the new IV
+  if (nb >= 1 && nb <= 64)
+  {
+    bytes iv4 = iv;
+    for (size_t i = 0; i < 16; i++)
+      iv4[i] = (uint8_t)(iv[i] * 3 + 0x47 + 5 * i);
+    void *f = wapi::factory_new(key.data(), iv.data());
+    void *a = wapi::factory_make(f, true, mode);
+    bytes ga = in;
+    for (size_t i = 0; i < nb && a; i++)
+      wapi::mode_run(a, ga.data() + 16 * i, aoff);
+    wapi::factory_loadiv(f, iv4.data());
+    void *b = wapi::factory_make(f, true, mode);
+    bytes gb = in;
+    for (size_t i = 0; i < nb && b; i++)
+      wapi::mode_run(b, gb.data() + 16 * i, aoff);
+    if (a)
+      wapi::mode_free(a);
+    if (b)
+      wapi::mode_free(b);
+    wapi::factory_free(f);
+    if (a && ga != want)
+      return bad("first encryptor of a factory differs from SP 800-38A");
+    if (b && gb != ref::mode_encrypt(mode, key.data(), iv4.data(), in))
+      return bad(gb == want ? "an encryptor made after loadiv() with another IV still uses the factory's previous IV" : "an encryptor made after loadiv() with another IV differs from SP 800-38A for that IV");
+    v.classes.push_back("factory_reused_for_a_second_iv");
+  }
   return v;
 }
 
